@@ -153,6 +153,8 @@ def election_core(d, size, equal=False, undeclared=False, withdrawn=True, min_ca
         ballots.append([short, [[d.choice(el)]]])
     if names == 'plain':
         case['names'] = None
+    if d.p(8):
+        case['nicks'] = ['k%s%d' % (d.choice('abxyz'), i) for i in range(1, nc + 1)]      # Candidate.nick != str(cid)
     if d.p(12):
         case['source'] = d.choice(['the source', 'src', 'S 1'])
         if d.p(50):
@@ -353,10 +355,20 @@ def render_layout(case, choices):
         option('nick', list(nicks))
     k = ch.next(max(1, len(opts)))
     opts = opts[k:] + opts[:k]
+    minus_first = ch.next(2)            # '-n' withdrawals may come before or after the bracketed options
+    if minus_first:
+        for c in minus:
+            tok('-%d' % c)
     for name, items in opts:
-        option(name, items())
-    for c in minus:
-        tok('-%d' % c)
+        its = items()
+        if name in ('withdrawn', 'undeclared') and len(its) >= 2 and ch.next(2):
+            option(name, its[:1])       # the same option may be given more than once
+            option(name, its[1:])
+        else:
+            option(name, its)
+    if not minus_first:
+        for c in minus:
+            tok('-%d' % c)
     ids = case.get('ids')
     for i, (m, ranking) in enumerate(case['ballots']):
         if ids:
